@@ -570,7 +570,12 @@ impl TableStore {
         }
         let merged_table = self.save_table(merged_table)?;
         for table in &tables[1..] {
-            self.remove_head(table);
+            // Segment names are content hashes: the merged table can be identical to
+            // one of the heads it was merged from, in which case `save_table()` has
+            // just (re)written that very head file. Don't delete it.
+            if table.name != merged_table.name {
+                self.remove_head(table);
+            }
         }
         Ok((merged_table, lock))
     }
